@@ -9,3 +9,6 @@ def collect(P):
     # save_metas: directory synced again after the atomic replace of meta.json
     P.flag("SAVE_METAS_SYNCS_AFTER_REPLACE", "src/indexer/segment_updater.rs",
            r"directory\.atomic_write\(&META_FILEPATH, &buffer\[\.\.\]\)\?;\s*(//[^\n]*\n\s*)*directory\.sync_directory\(\)\?;")
+    # save_metas: the directory is synced UNCONDITIONALLY right before the atomic replace of meta.json
+    P.flag("SAVE_METAS_SYNCS_BEFORE_REPLACE", "src/indexer/segment_updater.rs",
+           r"pub\(crate\) fn save_metas\(metas: &IndexMeta, directory: &dyn Directory\)[^}]*?\n    directory\.sync_directory\(\)\?;\s*directory\.atomic_write\(&META_FILEPATH, &buffer\[\.\.\]\)\?;")
